@@ -67,7 +67,7 @@ def _row(eng, i, group, marker, charge_marker, has_alt, name_len, comp_len, asym
     v["label_asym_id"] = name("asym", asym_len, ALPHA_ONE, "A")
     v["auth_asym_id"] = v["label_asym_id"] if same_chain else name("auth_asym", 1, ALPHA_ONE, "B")
     v["auth_seq_id"] = format(seq, "d")
-    v["label_seq_id"] = format(seq, "d")
+    v["label_seq_id"] = format(i + 1, "d")  # the 1-based entity index: NOT the residue number of the PDB encoding
     v["pdbx_PDB_ins_code"] = name("ins", 1, ALPHA_ONE, "A") if has_ins else ("?" if marker == "." else marker)
     for k in "xyz":
         v[f"Cartn_{k}"] = format(xyz[k], ".3f")
